@@ -21,7 +21,9 @@ func HC16_customQuery() {
 		names[i] = vfString(fmt.Sprint("var", i), 1, vfParam("C16.varlen", 1), "word")
 		comment += " " + fields[i] + seps[i%3] + "$" + names[i] + "$ ,"
 	}
-	comment += " WHERE id = 1"
+	// the first placeholder is used again where it is not the right-hand side of an equality
+	reuse := []string{"", " AND D <> $" + "@" + "$", " AND $" + "@" + "$ >= E", " AND F IN ($" + "@" + "$, 3)"}[vfChoice("reuse", 4)]
+	comment += " WHERE id = 1" + strings.ReplaceAll(reuse, "@", names[0])
 	var q CustomQuery
 	panicked, rt, msg := vfCatch(func() { q = newCustomQuery(byName, comment) })
 	vfObserve("outcome", msg)
@@ -63,7 +65,7 @@ func HC16_customQuery() {
 	for i := 0; i < n; i++ {
 		want += " " + fields[i] + seps[i%3] + "$" + fmt.Sprint(index[i]) + " ,"
 	}
-	want += " WHERE id = 1"
+	want += " WHERE id = 1" + strings.ReplaceAll(strings.ReplaceAll(reuse, "$@$", "$1"), "@", "")
 	vfAssert(q.Query == want, "C16/placeholders-numbered-by-first-occurrence")
 }
 
